@@ -1601,7 +1601,7 @@ def cast_cases(run: Run, impl: Impl) -> None:
             case = {'source_kind': kind, 'source': repr(val), 'request': fields, 'target': t, 'xsd': v}
             st.case(['cast', fields, t, v], nontrivial=True)
             st.count(f'cast:{kind}->{t if t not in INT_TYPES else "integer-family"}')
-            tags = ['F10b'] if 'd' in fl else []
+            tags = []
             if 'r' in fl:
                 run.disagree(Disagreement(case, impl=repr(val), model='pyRepr differs', what='pyRepr-model',
                                           site='CPython repr(float) vs EPV.LexLemmas.pyRepr'))
